@@ -89,9 +89,26 @@ class CoqBuildError(Exception):
     pass
 
 
-def build_coq() -> float:
+def build_targets(prop: str):
+    """The .vo files one check needs: its property file, its correspondence module(s) (those named in its driver)
+    and the shared ones; make builds their dependencies.  Other properties' files are not touched."""
+    mods = {"Corr/Common", "Corr/Core"}
+    if (COQ / "Props" / (prop + ".v")).exists():
+        mods.add("Props/" + prop)
+    if (COQ / "Corr" / (prop + ".v")).exists():
+        mods.add("Corr/" + prop)
+    drv = ROOT / "harness" / "props" / (prop.lower() + ".py")
+    if drv.exists():
+        for m in re.findall(r"\b(Corr|Props|Proofs|Model|Spec)\.([A-Za-z_][\w']*)", drv.read_text()):
+            if (COQ / m[0] / (m[1] + ".v")).exists():
+                mods.add("%s/%s" % m)
+    return sorted(m + ".vo" for m in mods)
+
+
+def build_coq(prop: str = None) -> float:
     t0 = time.time()
-    r = subprocess.run([str(ROOT / "tools" / "build_coq.sh")], capture_output=True, text=True)
+    cmd = [str(ROOT / "tools" / "build_coq.sh")] + (build_targets(prop) if prop else [])
+    r = subprocess.run(cmd, capture_output=True, text=True)
     if r.returncode != 0:
         raise CoqBuildError(r.stdout[-4000:] + r.stderr[-2000:])
     return time.time() - t0
@@ -408,7 +425,7 @@ def standard_proof_part(rep: Report, prop: str):
     On failure records a violation (no concrete input; the caller may add concrete ones)."""
     cov = rep.coverage
     try:
-        bt = build_coq()
+        bt = build_coq(prop)
         cov["coq_build_s"] = round(bt, 1)
         built = True
     except CoqBuildError as e:
